@@ -6,6 +6,7 @@ import NmVerif.NDA
 
   `Cfg` abstracts the 15 shape×buffer kinds to what matters at run time:
     shape  : dyn (std::vector) | fixedDim n (std::array<size_t,n>) | bounded cap (static_vector<size_t,cap>) | clipped maxs
+             | const s (tuple of integral constants: the shape is part of the type, there is no `resize`)
     buffer : dyn (std::vector) | fixed n (std::array<T,n>)        | bounded cap (static_vector<T,cap>)
     layout : row / column major (offset functor)
   `resize` mirrors ndarray_t::resize: validate the request (dimension, element count, capacity, clipped bounds),
@@ -15,7 +16,7 @@ namespace NmVerif.NDObj
 open NmVerif
 
 inductive ShapeKind where
-  | dyn | fixedDim (n : Nat) | bounded (cap : Nat) | clipped (maxs : List Nat)
+  | dyn | fixedDim (n : Nat) | bounded (cap : Nat) | clipped (maxs : List Nat) | const (s : List Nat)
 deriving Repr, DecidableEq
 
 inductive BufKind where
@@ -26,7 +27,7 @@ structure Cfg where
   sk : ShapeKind
   bk : BufKind
   colMajor : Bool
-deriving Repr
+deriving Repr, DecidableEq
 
 structure St where
   shape : List Nat
@@ -39,13 +40,17 @@ def stridesOf (cm : Bool) (s : Shape) : List Nat := if cm then colStrides s else
 /-- std::vector::resize / static_vector::resize on the buffer: keep the prefix, new cells value-initialised -/
 def resizeBuf (d : List Int) (n : Nat) : List Int := (d ++ List.replicate n 0).take n
 
-/-- default construction: buffer of 1 element (or its fixed size), shape (1,…,1,len buffer) -/
+/-- default construction: buffer of 1 element (or its fixed size), shape (1,…,1,len buffer) — or the constant shape —,
+    then a resizable buffer is resized to the product of the shape (ndarray.hpp:46-59) -/
 def init (c : Cfg) : St :=
-  let n := match c.bk with | .fixed n => n | _ => 1
+  let n0 := match c.bk with | .fixed n => n | _ => 1
   let shape := match c.sk with
-    | .fixedDim k => List.replicate (k - 1) 1 ++ [n]
-    | .clipped ms => List.replicate (ms.length - 1) 1 ++ [n]
-    | _ => [n]
+    | .fixedDim k => List.replicate (k - 1) 1 ++ [n0]
+    | .clipped ms =>    -- `at(shape,-1) = len(buffer)` on a clipped_size_t<max> clamps to max
+        List.replicate (ms.length - 1) 1 ++ [match ms.getLast? with | some m => min n0 m | none => n0]
+    | .const s => s
+    | _ => [n0]
+  let n := match c.bk with | .fixed n => n | _ => prod shape
   { shape := shape, strides := stridesOf c.colMajor shape, data := List.replicate n 0 }
 
 /-- would `ndarray_t::resize(new)` be accepted in state `st`? (the validation block) -/
@@ -54,7 +59,8 @@ def accepts (c : Cfg) (st : St) (new : List Nat) : Bool :=
     | .dyn => true
     | .fixedDim _ => st.shape.length == new.length
     | .bounded cap => new.length ≤ cap
-    | .clipped ms => new.length == ms.length && prod new ≤ prod ms && (List.zipWith (fun a b => decide (a ≤ b)) new ms).all id) &&
+    | .clipped ms => new.length == ms.length && prod new ≤ prod ms && (List.zipWith (fun a b => decide (a ≤ b)) new ms).all id
+    | .const _ => false) &&
   (match c.bk with
     | .dyn => true
     | .fixed _ => st.data.length == prod new
@@ -89,13 +95,26 @@ def run (c : Cfg) (st : St) (ops : List Op) : St := ops.foldl (fun s o => (step 
 /-- class invariant -/
 def ObjInv (c : Cfg) (st : St) : Prop :=
   st.data.length = prod st.shape ∧ st.strides = stridesOf c.colMajor st.shape ∧
-  (match c.sk with | .fixedDim k => st.shape.length = k | .bounded cap => st.shape.length ≤ cap | .clipped ms => st.shape.length = ms.length | .dyn => True) ∧
+  (match c.sk with | .fixedDim k => st.shape.length = k | .bounded cap => st.shape.length ≤ cap | .clipped ms => st.shape.length = ms.length | .dyn => True | .const s => st.shape = s) ∧
   (match c.bk with | .fixed n => st.data.length = n | .bounded cap => st.data.length ≤ cap | .dyn => True)
 
 /-- configuration sanity (the template parameters make sense) -/
 def CfgOk (c : Cfg) : Prop :=
-  (match c.sk with | .fixedDim k => 0 < k | .bounded cap => 0 < cap | .clipped ms => 0 < ms.length | .dyn => True) ∧
-  (match c.bk with | .bounded cap => 0 < cap | _ => True)
+  (match c.sk with | .fixedDim k => 0 < k | .bounded cap => 0 < cap | .clipped ms => 0 < ms.length | .dyn => True | .const _ => True) ∧
+  (match c.bk with | .bounded cap => 0 < cap | _ => True) ∧
+  (match c.sk, c.bk with | .const s, .fixed n => n = prod s | .const s, .bounded cap => prod s ≤ cap | _, _ => True)
+
+/-- the default-constructed state is consistent: with a clipped shape and a fixed buffer of `n` cells the last extent
+    `len(buffer)` must not exceed its maximum, otherwise it is clamped and the shape no longer has `n` elements -/
+def DefaultOk (c : Cfg) : Prop :=
+  match c.sk, c.bk with
+  | .clipped ms, .fixed n => (match ms.getLast? with | some m => n ≤ m | none => True)
+  | _, _ => True
+
+instance (c : Cfg) : Decidable (DefaultOk c) := by
+  unfold DefaultOk; split
+  · split <;> exact inferInstance
+  · exact inferInstance
 
 end NmVerif.NDObj
 
@@ -103,4 +122,88 @@ namespace NmVerif.NDObj
 /-- what `a.strides()` reports: `strides_`, always computed by `index::compute_strides(shape_)` (row-major),
     whatever the layout functor is (mirrors ndarray_t; for column-major arrays this is NOT the addressing stride) -/
 def reportedStrides (st : St) : List Nat := NmVerif.strides st.shape
+end NmVerif.NDObj
+
+/-! ## cast (include/nmtools/utility/cast.hpp)
+
+  `cast<dst_t>(a)`, `cast(a, as_value<dst_t>)` and `cast(a, kind)` all do the same at run time:
+    ret = dst_t{};  ret.resize(shape(a))  (result IGNORED; skipped when dst_t has no resize);
+    for i < size(a):  mutable_flatten(ret)(i) = static_cast<element_t>( flatten(a)(i) )
+  where `flatten(x)(i) = x(compute_indices(i, shape(x)))` goes through the array's own offset functor, so the copy is by
+  LOGICAL (row-major rank) position whatever the two layouts are.  When the resize is refused `ret` keeps its default
+  shape and the loop writes at `compute_indices(i, shape(ret))`, which wraps modulo the extents (no bounds check). -/
+namespace NmVerif.NDObj
+open NmVerif
+
+/-- element types exercised for cast(dtype); the source element type is `int` -/
+inductive DType where
+  | i8 | u8 | i16 | i64 | f64
+deriving Repr, DecidableEq
+
+def wrapSigned (bits : Nat) (v : Int) : Int := (v + 2 ^ (bits - 1)) % 2 ^ bits - 2 ^ (bits - 1)
+
+/-- `static_cast<T>(int v)` read back as an integer -/
+def convTo : DType → Int → Int
+  | .i8, v => wrapSigned 8 v
+  | .u8, v => v % 256
+  | .i16, v => wrapSigned 16 v
+  | .i64, v => v
+  | .f64, v => v
+
+/-- one iteration of `cast_impl` -/
+def castStep (conv : Int → Int) (src : St) (acc : Option St) (i : Nat) : Option St :=
+  match acc with
+  | none => none
+  | some r =>
+    match read? src (ndindex src.shape i) with      -- flatten(a)(i); `none` = read outside the source buffer (UB)
+    | none => none
+    | some v => some (write r (ndindex r.shape i) (conv v))
+
+/-- `cast` into a default-constructed array of configuration `cd`, element conversion `conv` -/
+def castInto (cd : Cfg) (conv : Int → Int) (src : St) : Option St :=
+  (List.range (prod src.shape)).foldl (castStep conv src) (some (resize cd (init cd) src.shape).1)
+
+/-- the destination kind can take the shape: its `resize` accepts it from the default state, or the default state
+    already has it (constant-shape kinds) -/
+def castFits (cd : Cfg) (s : List Nat) : Bool :=
+  accepts cd (init cd) s || (match cd.sk with | .const s' => decide (s' = s) | _ => false)
+
+/-- `cast(a, kind)`: the kind tags of cast.hpp / ndarray.hpp:625-660 -/
+inductive SKTag where | c | f | h | d | l deriving Repr, DecidableEq
+inductive BKTag where | f | h | d deriving Repr, DecidableEq
+inductive KindTag where
+  | fixed | hybrid | dynamic | nd (s : SKTag) (b : BKTag)
+deriving Repr, DecidableEq
+
+/-- destination configuration resolved (at compile time) for a source of fixed shape `s`
+    (`resolve_optype<cast_kind_t,…>`): fixed buffers get `prod s` cells, bounded ones capacity `prod s`, a fixed /
+    bounded dimension is `len s`, clipped maxima are `s`; every kind tag yields a row-major array -/
+def kindCfg (k : KindTag) (s : List Nat) : Cfg :=
+  match k with
+  | .fixed => ⟨.const s, .fixed (prod s), false⟩                    -- fixed_ndarray<T, s…>
+  | .hybrid => ⟨.fixedDim s.length, .bounded (prod s), false⟩       -- hybrid_ndarray<T, prod s, len s>
+  | .dynamic => ⟨.dyn, .dyn, false⟩                                  -- dynamic_ndarray<T>
+  | .nd sk bk =>
+    ⟨match sk with | .c => .const s | .f => .fixedDim s.length | .h => .bounded s.length | .d => .dyn | .l => .clipped s,
+     match bk with | .f => .fixed (prod s) | .h => .bounded (prod s) | .d => .dyn, false⟩
+
+/-- what the UNREPAIRED `column_major_offset_t` addresses with when the shape is a tuple of clipped integers with different
+    maxima (known finding C20.clipped-colmajor-strides; `stridesOf` follows the repaired code, fixes/C20-clipped-colmajor-reverse.diff):
+    `index::reverse` of the tuple of clipped strides returns an array of their COMMON clipped type, whose bound is the
+    bound of the unit stride, 1 — every stride is clamped to 1 -/
+def colStridesClippedAsCoded (s : Shape) : List Nat := (colStrides s).map (fun x => min x 1)
+
+/-- the extended machine: the array kind changes with a cast -/
+inductive XOp where
+  | base (o : Op) | cast (cd : Cfg) | dcast (t : DType)
+deriving Repr
+
+def xstep (cs : Cfg × St) : XOp → Option (Cfg × St)
+  | .base o => some (cs.1, (step cs.1 cs.2 o).1)
+  | .cast cd => (castInto cd id cs.2).map (fun r => (cd, r))
+  | .dcast t => (castInto cs.1 (convTo t) cs.2).map (fun r => (cs.1, r))   -- replace_element_type keeps kind and layout
+
+def xrun (cs : Cfg × St) (ops : List XOp) : Option (Cfg × St) :=
+  ops.foldl (fun a o => a.bind (fun x => xstep x o)) (some cs)
+
 end NmVerif.NDObj
